@@ -679,10 +679,11 @@ var assertScenarios = map[string]func() *Scenario{
 	"modules/l4http.(*MatchHTTP).handleHttp2WithPriorKnowledge": func() *Scenario {
 		const hf = "*golang.org/x/net/http2.HeadersFrame"
 		return &Scenario{
-			Name:     "http2 frames",
-			MaxVisit: 14,
-			MaxPaths: 20000,
-			Inline:   func(f *ssa.Function) bool { return false },
+			Name:            "http2 frames",
+			MaxVisit:        14,
+			MaxPaths:        20000,
+			Inline:          func(f *ssa.Function) bool { return false },
+			NoDefaultInline: true,
 			Alts: func(callee string, args []SV, ev *symEval, st *symState) []CallAlt {
 				if strings.HasSuffix(callee, "http2.Framer).ReadFrame") {
 					id := ev.fresh("frame")
